@@ -160,6 +160,14 @@ class Interp:
         raise Unanalysable(f"pattern path {name} is not in the rule's table")
 
     def macro(self, name, mac, env, node):
+        if name == "matches" and mac.get("matches"):
+            # matches!(e, PAT [if guard]) is a one-arm match yielding a bool
+            v = self.eval(mac["matches"]["expr"], env)
+            scope = env.child()
+            ok = self.match(mac["matches"]["pat"], v, scope)
+            if ok and mac["matches"]["guard"] is not None:
+                ok = self.cond(mac["matches"]["guard"], scope)
+            return bool(ok)
         if name in ("unimplemented", "panic", "unreachable", "todo"):
             raise Reached(name + "!", node)
         raise Unanalysable(f"macro {name}! is not in the rule's table")
